@@ -2369,3 +2369,36 @@ package sdf
 //@   ensures [no-operand-is-nearer-than-the-result] forall k int :: 0 <= k && k < len(s.sdf) ==> r <= s.sdf[k].Evaluate(p)
 //@   ensures [and-the-result-is-the-distance-to-one-of-them] exists w int :: 0 <= w && w < len(s.sdf) && r == s.sdf[w].Evaluate(p)
 //@ end
+
+//@ func UnionSDF3.Evaluate
+//@   property C02 C01
+//@   id minimum-over-all-operands
+//@   pure
+//@   local
+//@   requires len(s.sdf) >= 1
+//@   requires forall k int :: 0 <= k && k < len(s.sdf) ==> !isnil(s.sdf[k])
+//@   requires forall a float64, b float64 :: s.min(a, b) == min(a, b)
+//@   invariant 0 rangeindex >= -1 && rangeindex < len(s.sdf)
+//@   invariant 0 forall k int :: 0 <= k && k <= rangeindex ==> d <= s.sdf[k].Evaluate(p)
+//@   invariant 0 exists w int :: rangeindex == -1 || (0 <= w && w <= rangeindex && d == s.sdf[w].Evaluate(p))
+//@   ensures [no-operand-is-nearer-than-the-result] forall k int :: 0 <= k && k < len(s.sdf) ==> r <= s.sdf[k].Evaluate(p)
+//@   ensures [and-the-result-is-the-distance-to-one-of-them] exists w int :: 0 <= w && w < len(s.sdf) && r == s.sdf[w].Evaluate(p)
+//@ end
+
+//@ func Union3D
+//@   property C01
+//@   id ENC
+//@   summarise UnionSDF3.Evaluate minimum-over-all-operands
+//@   forall p v3.Vec
+//@   requires forall k int :: 0 <= k && k < len(sdf) && !isnil(sdf[k]) ==> ord3(sdf[k].BoundingBox())
+//@   requires forall k int, q v3.Vec :: 0 <= k && k < len(sdf) && !isnil(sdf[k]) ==> enc3(sdf[k], q)
+//@   invariant 0 rangeindex >= -1 && rangeindex < len(sdf) && len(s.sdf) <= rangeindex + 1
+//@   invariant 0 forall j int :: 0 <= j && j < len(s.sdf) ==> !isnil(s.sdf[j]) && ord3(s.sdf[j].BoundingBox())
+//@   invariant 0 forall j int, q v3.Vec :: 0 <= j && j < len(s.sdf) ==> enc3(s.sdf[j], q)
+//@   invariant 1 rangeindex >= -1 && rangeindex < len(s.sdf) && ord3(bb)
+//@   invariant 1 forall j int :: 0 <= j && j <= rangeindex ==> bb.Min.X <= s.sdf[j].BoundingBox().Min.X && bb.Min.Y <= s.sdf[j].BoundingBox().Min.Y && bb.Min.Z <= s.sdf[j].BoundingBox().Min.Z && bb.Max.X >= s.sdf[j].BoundingBox().Max.X && bb.Max.Y >= s.sdf[j].BoundingBox().Max.Y && bb.Max.Z >= s.sdf[j].BoundingBox().Max.Z
+//@   let d = r.Evaluate(p)
+//@   ensures [nothing-to-unite] len(sdf) == 0 ==> isnil(r)
+//@   ensures [ordered] !isnil(r) ==> ord3(r.BoundingBox())
+//@   ensures [encloses] !isnil(r) && d < 0 ==> r.BoundingBox().Contains(p)
+//@ end
